@@ -30,6 +30,7 @@ class Ctx:
         self.outer = []           # enclosing loops' (visited/index, iterset/iterlist, elem)
         self.before = None        # rely steps: state before the suspension
         self.contract = None      # the contract being verified (body mode)
+        self.ghost = {}           # ghost arguments of the call (predicates / functions chosen by the caller)
         self.entry_ctx = None
         self.cache = {}           # memoised definitional sets of this context
         self.mode = 'prove'       # 'prove' (body verification) | 'assume' (call site)
@@ -85,6 +86,7 @@ class Ctx:
         c.defs = self.defs
         c.mode = self.mode
         c.skolems = self.skolems
+        c.ghost = self.ghost
         for k in ('visited', 'index', 'iterset', 'iterlist', 'loop_pre', 'elem', 'outer', 'before'):
             setattr(c, k, getattr(self, k))
         for k, v in kw.items():
@@ -135,6 +137,8 @@ class Contract:
         self.inline_ok = False
         self.unreachable_raises = []    # exception classes that must never escape
         self.schemas = {}               # name -> (fn(c, *params) -> Bool, mk_params() -> tuple)
+        self.ghost_params = {}          # name -> (mk_symbol(), default_at_call_sites)
+        self.ghost_pass = {}            # callee qualname -> fn(caller ctx) -> {name: value}
         self.notes = ''
 
     # ---- builder API
